@@ -1385,13 +1385,21 @@ func (m *mergeQuery) Properties() queryProp {
 	return queryProps.Position | queryProps.Count | queryProps.Cached | queryProps.Merge
 }
 
+// writeKeyPart writes s preceded by its length, so that the parts of a node key cannot run
+// into each other or into the index path that follows them (a name such as "a-1" would).
+func writeKeyPart(sb *bytes.Buffer, s string) {
+	sb.WriteString(strconv.Itoa(len(s)))
+	sb.WriteByte(':')
+	sb.WriteString(s)
+}
+
 func getHashCode(n NodeNavigator) uint64 {
 	var sb bytes.Buffer
 	switch n.NodeType() {
 	case AttributeNode, TextNode, CommentNode:
-		sb.WriteString(n.LocalName())
-		sb.WriteByte('=')
-		sb.WriteString(n.Value())
+		writeKeyPart(&sb, n.Prefix())
+		writeKeyPart(&sb, n.LocalName())
+		writeKeyPart(&sb, n.Value())
 		// https://github.com/antchfx/htmlquery/issues/25
 		d := 1
 		for n.MoveToPrevious() {
@@ -1408,7 +1416,8 @@ func getHashCode(n NodeNavigator) uint64 {
 			sb.WriteString(strconv.Itoa(d))
 		}
 	case ElementNode:
-		sb.WriteString(n.Prefix() + n.LocalName())
+		writeKeyPart(&sb, n.Prefix())
+		writeKeyPart(&sb, n.LocalName())
 		d := 1
 		for n.MoveToPrevious() {
 			d++
